@@ -29,6 +29,12 @@ def run(chk, program, tier):
     chk.rule('HELP-STR', 'string helpers: skip = 8 x length byte; fixed strings take exactly their bits')
     chk.rule('HELP-SIB', 'sibling helpers agree (float formats, date epoch, time decomposition)')
     off = R.gen_dec(chk, program)
+    # what is decoded from a payload does not depend on the payloads decoded before it (C16)
+    chk.rule('FRESH-MSG', 'no memoised message objects (C16)'); chk.rule('STATE-DEPS', 'the decode path depends only on configuration, source map and reassembly buffers (C16)')
+    from .. import rules_iso
+    from .c16 import _Sub
+    rules_iso.no_decorators(_Sub(chk, {'FRESH-MSG'}), program)
+    rules_iso.state_deps(_Sub(chk, {'STATE-DEPS'}), program)
     R.gen_tab(chk, program)
     R.gen_raise(chk, program)
     R.gen_offset(chk, program, off)
